@@ -217,6 +217,23 @@ v("C14", "merge-sort-deleted", LD, "                    dec_files = dec_prior_fi
 v("C14", "listdir-unguarded", LD, "        try:\n            subdir_files = os.listdir(os.path.join(root, subdir))\n        except OSError:\n            # directory failed to list (e.g. doesn't exist anymore), skip\n            continue\n",
   "        subdir_files = os.listdir(os.path.join(root, subdir))\n", rules=["C14.R4"])
 v("C14", "empty-guard-removed", LD, "            and (not dec_files or dec_files[0][0] > starttime)", "            and dec_files[0][0] > starttime", rules=["C14.R4"])
+_C14_LOOP = """    enum_subdirs = list(enumerate(dec_subdirs[subdir_slice]))
+    for k, (_time, subdir) in enum_subdirs if not reverse else reversed(enum_subdirs):
+"""
+v("C14", "position-from-visiting-order", LD, _C14_LOOP,
+  "    for k, (_time, subdir) in (\n        enumerate(dec_subdirs[subdir_slice])\n        if not reverse\n        else enumerate(list(reversed(dec_subdirs[subdir_slice])))\n    ):\n",
+  rules=["C14.R6"])
+v("C14", "position-from-visiting-order-inplace", LD, _C14_LOOP,
+  "    sel_subdirs = dec_subdirs[subdir_slice]\n    if reverse:\n        sel_subdirs.reverse()\n    for k, (_time, subdir) in enumerate(sel_subdirs):\n",
+  rules=["C14.R6"])
+v("C14", "files-not-reversed", LD, "        for dec_file in dec_files[slc] if not reverse else reversed(dec_files[slc]):", "        for dec_file in dec_files[slc]:", rules=["C14.R6"])
+v("C14", "reverse-skips-first", LD, "            ffill=(k == 0) and yielding_dmd_channel,", "            ffill=(k == 0) and yielding_dmd_channel and not reverse,", expect="analysis-error")
+v("C14", "twin-position-by-zip", LD, _C14_LOOP,
+  "    sel_subdirs = dec_subdirs[subdir_slice]\n    for k, (_time, subdir) in (\n        enumerate(sel_subdirs)\n        if not reverse\n        else zip(range(len(sel_subdirs) - 1, -1, -1), reversed(sel_subdirs))\n    ):\n",
+  expect="silent")
+v("C14", "twin-first-position-per-order", LD, _C14_LOOP,
+  "    sel_subdirs = dec_subdirs[subdir_slice]\n    first = 0 if not reverse else len(sel_subdirs) - 1\n    if reverse:\n        sel_subdirs = sel_subdirs[::-1]\n    for k, (_time, subdir) in enumerate(sel_subdirs):\n        k = 0 if k == first else 1\n",
+  expect="silent")
 v("C15", "literal-regex", WD, "        elif include_dmd:\n            regexes.append(RE_DMD)", "        elif include_dmd:\n            regexes.append(r\".*@[0-9]+\\.h5$\")", rules=["C15.R1"])
 v("C15", "dmd-row-wrong-regex", WD, "        elif include_dmd:\n            regexes.append(RE_DMD)", "        elif include_dmd:\n            regexes.append(RE_DRF)", rules=["C15.R2"])
 v("C15", "props-keyed-on-data-flag", WD, "        elif include_drf_properties:\n            regexes.append(RE_DRFPROP)", "        elif include_drf:\n            regexes.append(RE_DRFPROP)", rules=["C15.R2"])
